@@ -114,7 +114,8 @@ def gen_row(rng, world: dict, year: int, line: int) -> dict:
     # ---- dates, days, times --------------------------------------------------------
     kind = rng.choice(['single', 'week', 'dst-spring', 'dst-autumn', 'months', 'year',
                        'open-from', 'open-to', 'open-both', 'open-to-from-previous-year',
-                       'open-from-to-next-year'])
+                       'open-from-to-next-year', 'open-to-from-next-year',
+                       'open-from-to-previous-year'])
     y = year
     if kind == 'single':
         d0 = date(y, 1, 1) + timedelta(days=rng.randint(0, 364))
@@ -148,6 +149,16 @@ def gen_row(rng, world: dict, year: int, line: int) -> dict:
     if kind == 'open-from-to-next-year':
         d0 = date(y, 1, 1)
         d1 = date(y + 1, 1, rng.randint(1, 12))
+        row['efffrom'], row['effto'] = '00000000', d1.strftime('%Y%m%d')
+    if kind == 'open-to-from-next-year':
+        # starts after the data year has ended: the (open) range is empty in the data year
+        d0 = date(y + 1, 1, rng.randint(1, 20))
+        d1 = date(y, 12, 31)
+        row['efffrom'], row['effto'] = d0.strftime('%Y%m%d'), '99999999'
+    if kind == 'open-from-to-previous-year':
+        # ended before the data year began
+        d0 = date(y, 1, 1)
+        d1 = date(y - 1, 12, rng.randint(10, 31))
         row['efffrom'], row['effto'] = '00000000', d1.strftime('%Y%m%d')
     days = sorted(rng.sample(range(1, 8), rng.randint(1, 7)))
     if rng.random() < 0.1:
